@@ -157,6 +157,9 @@ func joinInts(l []int) string {
 
 func isMGetKind(kind string) bool { return kind == "mget" || kind == "jmget" }
 
+// helper kinds: rueidis.MGetCache / rueidis.JsonMGetCache (DoMultiCache of GET / JSON.GET + key -> result map)
+func isHelperKind(kind string) bool { return kind == "hmget" || kind == "hjmget" }
+
 var epCounter atomic.Int64
 
 // names builds one key string per key id whose mux wire (slot & (wires-1)) is kd[id].
@@ -225,6 +228,22 @@ func (r *rig) call(kind string, names []string) callOut {
 		res := c.DoCache(ctx, c.B().JsonMget().Key(names...).Path("$").Cache(), time.Minute)
 		arr, err := res.ToArray()
 		return callOut{arr: arr, err: err}
+	case "hmget", "hjmget":
+		var m map[string]rueidis.RedisMessage
+		var err error
+		if kind == "hmget" {
+			m, err = rueidis.MGetCache(c, ctx, time.Minute, names)
+		} else {
+			m, err = rueidis.JsonMGetCache(c, ctx, time.Minute, names, "$")
+		}
+		if err != nil {
+			return callOut{err: err}
+		}
+		arr := make([]rueidis.RedisMessage, len(names))
+		for i, n := range names {
+			arr[i] = m[n] // a missing key shows as the empty message
+		}
+		return callOut{arr: arr}
 	case "multi", "multis":
 		cs := make([]rueidis.CacheableTTL, len(names))
 		for i, n := range names {
@@ -330,7 +349,7 @@ func fetchEvents(evs []Event) (mgets []Event, gets []Event) {
 		switch strings.ToUpper(ev.Argv[0]) {
 		case "MGET", "JSON.MGET":
 			mgets = append(mgets, ev)
-		case "GET":
+		case "GET", "JSON.GET":
 			gets = append(gets, ev)
 		}
 	}
@@ -398,14 +417,16 @@ func (r *rig) run(c *Ctx, e episode) (ans, orc string) {
 			}()
 		}
 		want := 0
-		if isMGetKind(e.kind) {
-			if len(pk) > 0 {
-				launch(pk)
-				want++
-			}
-			if len(fk) > 0 {
-				launch(fk)
-				want++
+		if isMGetKind(e.kind) || isHelperKind(e.kind) { // a failing flight fails the whole call: keep P and F apart
+			for _, ks := range [][]string{pk, fk} {
+				if len(ks) > 0 {
+					launch(ks)
+					if isMGetKind(e.kind) {
+						want++
+					} else {
+						want += len(ks)
+					}
+				}
 			}
 		} else {
 			launch(append(append([]string(nil), pk...), fk...))
@@ -567,7 +588,7 @@ func (r *rig) run(c *Ctx, e episode) (ans, orc string) {
 		return p
 	}
 	op := e.line(r.cfg)
-	if isMGetKind(e.kind) && out.err != nil {
+	if out.err != nil {
 		d := errDesc(out.err)
 		return fmt.Sprintf("rw=%s err=%s", rw, d), "err=" + d
 	}
@@ -608,7 +629,11 @@ func shapeCheck(evs []Event, stride2 bool) string {
 			return fmt.Sprintf("conn%d:len%d", cn, len(l))
 		}
 		for i, ev := range l {
-			if strings.ToUpper(ev.Argv[0]) != want[i%len(want)] {
+			name := strings.ToUpper(ev.Argv[0])
+			if name == "JSON.GET" {
+				name = "GET"
+			}
+			if name != want[i%len(want)] {
 				return fmt.Sprintf("conn%d:at%d:%s", cn, i, ev.Argv[0])
 			}
 			if !stride2 && i%5 == 3 && l[i-1].Argv[1] != ev.Argv[1] {
@@ -719,7 +744,7 @@ func randVk(c *Ctx, kind, st string, plain bool) string {
 	return string(b)
 }
 
-var allKinds = []string{"mget", "jmget", "multi", "multis"}
+var allKinds = []string{"mget", "jmget", "multi", "multis", "hmget", "hjmget"}
 var allCfgs = []rigCfg{{1, "lru"}, {2, "lru"}, {4, "lru"}, {1, "wrap"}, {2, "wrap"}, {4, "wrap"}}
 
 type rigs struct {
